@@ -206,7 +206,34 @@ class MPath:
             k += 1
         return [type(self)(p) for p in out]
 
-    def unlink(self) -> None:  # cleanup operation: does not fail
+    def open(self, mode: str = "r", **kw: Any) -> Any:
+        return make_open(self.world)(self.s, mode, **kw)
+
+    def read_text(self, encoding: Optional[str] = None, **kw: Any) -> str:
+        with self.open("r", encoding=encoding) as f:
+            return f.read()
+
+    def read_bytes(self) -> bytes:
+        with self.open("rb") as f:
+            return f.read()
+
+    def write_text(self, data: str, encoding: Optional[str] = None, **kw: Any) -> int:
+        with self.open("w", encoding=encoding) as f:
+            return f.write(data)
+
+    def write_bytes(self, data: bytes) -> int:
+        with self.open("wb") as f:
+            return f.write(data)
+
+    def mkdir(self, parents: bool = False, exist_ok: bool = False, **kw: Any) -> None:
+        MOs(self.world).makedirs(self.s, exist_ok=exist_ok)
+
+    def unlink(self, missing_ok: bool = False) -> None:  # cleanup operation: does not fail
+        if missing_ok and self.s not in self.world.files:
+            return
+        self._unlink()
+
+    def _unlink(self) -> None:
         self.world.touched.append(("unlink", self.s))
         if self.s not in self.world.files:
             raise FileNotFoundError(2, "No such file or directory", self.s)
